@@ -66,8 +66,10 @@ type obs struct {
 	Attempts   int    `json:"dial_attempts,omitempty"`
 	NonceReuse bool   `json:"same_nonce_on_every_attempt,omitempty"`
 	Discard    string `json:"discard,omitempty"`
-	// the honest holder's relayed proof covered its certificate key (binding repair present)
-	OracleBound bool `json:"relayed_proof_bound_to_tls_key,omitempty"`
+	// HonestProof: the honest side's own certificate as seen by the deviating peer:
+	// "ok" | "bad: ..." | "" (the handshake did not get that far)
+	HonestProof string `json:"honest_side_proof,omitempty"`
+	absCtx
 }
 
 func coqSuite(s string) string {
@@ -98,8 +100,9 @@ func coqCase(in *input, o *obs) string {
 		ident = fmt.Sprintf("(IdKey %d)", in.Ident.Key)
 	}
 	return fmt.Sprintf("Case %s %s %s %s (Hello %s %d) %s %d (Obs %s %d %s %s)", lvl, role, coqSuite(in.Suite),
-		lib.NatList(in.Holds), coqChain(in.Chain, o.OracleBound), in.HSKey, ident, in.Msgs,
-		lib.Bool(o.Handshake), o.Dispatched, lib.NatList(o.Stamped), lib.Bool(o.Crash != ""))
+		lib.NatList(in.Holds), coqChain(in.Chain, o.absCtx), in.HSKey, ident, in.Msgs,
+		lib.Bool(o.Handshake), o.Dispatched, lib.NatList(o.Stamped), lib.Bool(o.Crash != ""),
+		lib.Bool(!strings.HasPrefix(o.HonestProof, "bad")))
 }
 
 func reasonClass(err error) string {
@@ -227,7 +230,8 @@ func runInSubprocess(raw json.RawMessage) obs {
 		e := stderr.String()
 		i := strings.Index(e, "panic: ")
 		if i < 0 {
-			return obs{Discard: "child failed without a panic: " + clip(e)}
+			// killed by the runtime (fatal error, os.Exit, ...): still the honest node dying
+			return obs{Crash: "died: " + clip(e), Handshake: strings.Contains(e, "receiveServerIdentity")}
 		}
 		line := e[i:]
 		if j := strings.Index(line, "\n"); j >= 0 {
@@ -235,9 +239,9 @@ func runInSubprocess(raw json.RawMessage) obs {
 		}
 		// the handshake had been accepted iff the panic comes from the code after it
 		return obs{Crash: clip(line), Handshake: strings.Contains(e, "receiveServerIdentity")}
-	case <-time.After(30 * time.Second):
+	case <-time.After(90 * time.Second):
 		cmd.Process.Kill()
-		return obs{Discard: "child timed out"}
+		return obs{Crash: "hang: the child process running this case did not finish in 90 s"}
 	}
 }
 
@@ -283,7 +287,7 @@ func runUnit(in *input) (o obs) {
 	// a previous handshake of the same kind, for the stale nonce
 	_, stale := network.VerifC08MakeVerifier(w.suite, them)
 	vrf, nonce := network.VerifC08MakeVerifier(w.suite, them)
-	w.nonces["cur"] = nonce
+	w.setCur(nonce)
 	w.nonces["stale"] = stale
 	w.nonces["foreign"] = network.VerifC08MkNonce(w.suite)
 	w.oracle = func(signer int, n []byte) ([]byte, error) {
@@ -298,7 +302,7 @@ func runUnit(in *input) (o obs) {
 	if err != nil {
 		return obs{Discard: "cannot build chain: " + err.Error()}
 	}
-	o.OracleBound = w.oracleBound
+	o.absCtx = w.abs
 	func() {
 		defer func() {
 			if r := recover(); r != nil {
@@ -370,8 +374,11 @@ func (h *honest) count() int {
 	return len(h.got)
 }
 
-// waitDispatched waits until n messages were dispatched or stop is closed.
-func (h *honest) waitDispatched(n int, stop <-chan bool, max time.Duration) {
+// waitDispatched waits until n messages were dispatched ("served"), stop is
+// closed ("closed": the honest side ended the connection) or the deadline
+// passes ("hang": the honest side neither serves nor drops the peer -- an
+// observation of its own, never folded into one of the other two).
+func (h *honest) waitDispatched(n int, stop <-chan bool, max time.Duration) string {
 	deadline := time.After(max)
 	for h.count() < n {
 		select {
@@ -379,11 +386,12 @@ func (h *honest) waitDispatched(n int, stop <-chan bool, max time.Duration) {
 		case <-stop:
 			// the honest side closed the link. Dispatching is synchronous in the
 			// router's read loop and precedes its Close, so the count is final.
-			return
+			return "closed"
 		case <-deadline:
-			return
+			return "hang"
 		}
 	}
+	return "served"
 }
 
 func (w *world) stamped(h *honest) []int {
@@ -409,10 +417,6 @@ func tlsVersions(v string) (uint16, uint16) {
 		return tls.VersionTLS12, tls.VersionTLS12
 	}
 	return tls.VersionTLS13, tls.VersionTLS13
-}
-
-func isAlert(err error) bool {
-	return err != nil && (strings.Contains(err.Error(), "remote error: tls:") || strings.Contains(err.Error(), "tls: "))
 }
 
 func usesNonce(in *input, which string) bool {
@@ -453,12 +457,12 @@ func runTLS(in *input) (o obs) {
 	if in.Role == "accept" {
 		w.oracle = func(signer int, n []byte) ([]byte, error) { return w.relayFromDialler(e, signer, n) }
 		o = runAccept(in, w, h)
-		o.OracleBound = w.oracleBound
+		o.absCtx = w.abs
 		return o
 	}
 	w.oracle = func(signer int, n []byte) ([]byte, error) { return w.relayFromListener(e, signer, n) }
 	o = runDial(in, w, h)
-	o.OracleBound = w.oracleBound
+	o.absCtx = w.abs
 	return o
 }
 
@@ -467,7 +471,7 @@ func runTLS(in *input) (o obs) {
 // of the certificate the holder presents.
 func (w *world) relayFromListener(e *honest, signer int, nonce []byte) ([]byte, error) {
 	if e == nil || signer != kE {
-		return nil, errors.New("no honest holder for this key")
+		return nil, errHarness{"no honest holder for this key"}
 	}
 	var sig []byte
 	var serr error
@@ -481,7 +485,7 @@ func (w *world) relayFromListener(e *honest, signer int, nonce []byte) ([]byte, 
 			return errors.New("got what I wanted")
 		},
 	}
-	c, err := tls.DialWithDialer(&net.Dialer{Timeout: 2 * time.Second}, "tcp", e.si.Address.NetworkAddress(), cfg)
+	c, err := tls.DialWithDialer(&net.Dialer{Timeout: 20 * time.Second}, "tcp", e.si.Address.NetworkAddress(), cfg)
 	if err == nil {
 		c.Close()
 	}
@@ -497,7 +501,7 @@ func (w *world) relayFromListener(e *honest, signer int, nonce []byte) ([]byte, 
 // signature.
 func (w *world) relayFromDialler(e *honest, signer int, nonce []byte) ([]byte, error) {
 	if e == nil || signer != kE {
-		return nil, errors.New("no honest holder for this key")
+		return nil, errHarness{"no honest holder for this key"}
 	}
 	type res struct {
 		sig []byte
@@ -508,7 +512,7 @@ func (w *world) relayFromDialler(e *honest, signer int, nonce []byte) ([]byte, e
 	base.GetConfigForClient = func(hello *tls.ClientHelloInfo) (*tls.Config, error) {
 		// an honest-looking certificate for key A over the dialler's nonce
 		w2 := *w
-		w2.nonces = map[string][]byte{"cur": []byte(hello.ServerName)}
+		w2.nonces = map[string][]byte{"cur": append([]byte{}, hello.ServerName...)}
 		der, err := w2.buildCert(honestSpec(kA, 1))
 		if err != nil {
 			return nil, err
@@ -547,7 +551,7 @@ func (w *world) relayFromDialler(e *honest, signer int, nonce []byte) ([]byte, e
 	select {
 	case r := <-out:
 		return r.sig, r.err
-	case <-time.After(10 * time.Second):
+	case <-time.After(20 * time.Second):
 		return nil, errors.New("honest holder did not dial")
 	}
 }
@@ -578,6 +582,28 @@ func leafCNKey(in *input) (int, bool) {
 	return 0, false
 }
 
+// checkHonestProof: what the honest side presented to the deviating peer must
+// itself be a valid proof by the honest key over the nonce the peer sent.
+func (w *world) checkHonestProof(raw [][]byte, nonce []byte) string {
+	if len(raw) != 1 {
+		return fmt.Sprintf("bad: %d certificates", len(raw))
+	}
+	if _, err := proofFormat(w.suite, w.keys[kHonest].Public, nonce, raw[0]); err != nil {
+		return "bad: " + clip(err.Error())
+	}
+	return "ok"
+}
+
+const (
+	handshakeDeadline = 30 * time.Second // a handshake that takes longer is a hang, not a refusal
+	serveDeadline     = 30 * time.Second
+)
+
+func isTimeout(err error) bool {
+	ne, ok := err.(net.Error)
+	return ok && ne.Timeout()
+}
+
 // runAccept: the deviating client dials the honest listener.
 func runAccept(in *input, w *world, h *honest) (o obs) {
 	min, max := tlsVersions(in.TLSVer)
@@ -591,21 +617,26 @@ func runAccept(in *input, w *world, h *honest) (o obs) {
 				}
 				return nil, errors.New("abandon")
 			}}
-		if c, err := tls.DialWithDialer(&net.Dialer{Timeout: 2 * time.Second}, "tcp", addr, cfg); err == nil {
+		if c, err := tls.DialWithDialer(&net.Dialer{Timeout: handshakeDeadline}, "tcp", addr, cfg); err == nil {
 			c.Close()
 		}
 		if w.nonces["stale"] == nil {
-			return obs{Discard: "no stale nonce"}
+			// the listener gave none: any other 32 bytes are as stale
+			w.nonces["stale"] = network.VerifC08MkNonce(w.suite)
 		}
 	}
 	var buildErr error
 	cfg := &tls.Config{InsecureSkipVerify: true, ServerName: string(w.nonces["foreign"]), MinVersion: min, MaxVersion: max,
+		VerifyPeerCertificate: func(raw [][]byte, _ [][]*x509.Certificate) error {
+			o.HonestProof = w.checkHonestProof(raw, w.nonces["foreign"])
+			return nil
+		},
 		GetClientCertificate: func(cri *tls.CertificateRequestInfo) (*tls.Certificate, error) {
 			if len(cri.AcceptableCAs) == 0 {
-				buildErr = errors.New("no nonce from the listener")
-				return nil, buildErr
+				w.setCur(nil) // a listener that hands out no nonce: observed, not skipped
+			} else {
+				w.setCur(cri.AcceptableCAs[0])
 			}
-			w.nonces["cur"] = cri.AcceptableCAs[0]
 			chain, err := w.buildChain(in.Chain)
 			if err != nil {
 				buildErr = err
@@ -613,15 +644,18 @@ func runAccept(in *input, w *world, h *honest) (o obs) {
 			}
 			return &tls.Certificate{Certificate: chain, PrivateKey: w.tls[in.HSKey]}, nil
 		}}
-	c, err := tls.DialWithDialer(&net.Dialer{Timeout: 2 * time.Second}, "tcp", addr, cfg)
+	c, err := tls.DialWithDialer(&net.Dialer{Timeout: handshakeDeadline}, "tcp", addr, cfg)
 	if buildErr != nil {
 		return obs{Discard: "cannot build chain: " + buildErr.Error()}
 	}
 	if err != nil {
+		// refused during the handshake (TLS 1.2 reports the listener's verdict here)
 		o.Reason = "handshake: " + clip(err.Error())
-		if !isAlert(err) {
-			return obs{Discard: "dial: " + err.Error()}
+		if isTimeout(err) {
+			o.Crash = "hang: the listener did not finish the handshake in " + handshakeDeadline.String()
 		}
+		o.Dispatched = h.count()
+		o.Stamped = w.stamped(h)
 		return o
 	}
 	defer c.Close()
@@ -633,7 +667,7 @@ func runAccept(in *input, w *world, h *honest) (o obs) {
 		for {
 			c.SetReadDeadline(time.Now().Add(5 * time.Second))
 			if _, err := c.Read(buf); err != nil {
-				if ne, ok := err.(net.Error); ok && ne.Timeout() {
+				if isTimeout(err) {
 					continue // nothing to read yet: the link is simply up
 				}
 				rerr = err
@@ -663,7 +697,7 @@ func runAccept(in *input, w *world, h *honest) (o obs) {
 			}
 			b, err := network.Marshal(w.si(k, network.NewTLSAddress("127.0.0.1:1"), false))
 			if err != nil || len(b) < 18 || b[16] != 0x0a {
-				return
+				panic("harness: the identity message is not laid out as expected; cannot cut its key field")
 			}
 			l, n := binary.Uvarint(b[17:])
 			rest := b[17+n+int(l):]
@@ -678,6 +712,8 @@ func runAccept(in *input, w *world, h *honest) (o obs) {
 			var sz [4]byte
 			binary.BigEndian.PutUint32(sz[:], uint32(len(msg)))
 			c.Write(append(sz[:], msg...))
+		default:
+			panic("harness: bad identity kind " + in.Ident.Kind)
 		}
 	}
 	sendIdent()
@@ -691,18 +727,24 @@ func runAccept(in *input, w *world, h *honest) (o obs) {
 	if in.Ident.Kind == "wrongtype" {
 		want++
 	}
-	h.waitDispatched(want, closed, 15*time.Second)
-	select {
-	case <-closed:
+	if want == 0 {
+		want = 1 // nothing to be served: only a close ends the wait
+	}
+	switch h.waitDispatched(want, closed, serveDeadline) {
+	case "closed":
 		if rerr != nil && strings.Contains(rerr.Error(), "remote error: tls:") {
 			o.Reason = "alert: " + clip(rerr.Error())
 		} else {
 			o.Handshake = true
-			o.Reason = "handshake accepted, then closed by the honest side"
+			o.Reason = "handshake accepted, then closed by the honest side: " + clip(fmt.Sprint(rerr))
 		}
-	default:
+	case "served":
 		o.Handshake = true
 		o.Reason = "link up"
+	case "hang":
+		// no alert, no close, not served: the handshake went through, and then nothing
+		o.Handshake = true
+		o.Crash = "hang: the honest side neither served nor dropped the peer within " + serveDeadline.String()
 	}
 	o.Dispatched = h.count()
 	o.Stamped = w.stamped(h)
@@ -721,11 +763,13 @@ func runDial(in *input, w *world, h *honest) (o obs) {
 		mu.Lock()
 		defer mu.Unlock()
 		if stalePhase {
-			w.nonces["stale"] = []byte(hello.ServerName)
+			if hello.ServerName != "" {
+				w.nonces["stale"] = []byte(hello.ServerName)
+			}
 			return nil, errors.New("abandon")
 		}
 		nonces = append(nonces, []byte(hello.ServerName))
-		w.nonces["cur"] = []byte(hello.ServerName)
+		w.setCur([]byte(hello.ServerName)) // an empty server name = no nonce: observed, not skipped
 		chain, err := w.buildChain(in.Chain)
 		if err != nil {
 			buildErr = err
@@ -738,6 +782,10 @@ func runDial(in *input, w *world, h *honest) (o obs) {
 			ClientAuth:   tls.RequireAnyClientCert,
 			ClientCAs:    pool,
 			MinVersion:   min, MaxVersion: max,
+			VerifyPeerCertificate: func(raw [][]byte, _ [][]*x509.Certificate) error {
+				o.HonestProof = w.checkHonestProof(raw, w.nonces["foreign"])
+				return nil
+			},
 		}, nil
 	}
 	ln, err := tls.Listen("tcp", "127.0.0.1:0", base)
@@ -745,20 +793,26 @@ func runDial(in *input, w *world, h *honest) (o obs) {
 		return obs{Discard: "listen: " + err.Error()}
 	}
 	defer ln.Close()
-	linkUp := make(chan *tls.Conn, 8)
+	// every accepted connection's handshake is waited for, so that "did the
+	// dialler accept our certificate" is read off the completed handshakes and
+	// not off the error value of Send alone
+	var inflight sync.WaitGroup
+	linkUp := make(chan *tls.Conn, 16)
 	go func() {
 		for {
 			c, err := ln.Accept()
 			if err != nil {
 				return
 			}
+			inflight.Add(1)
 			go func(tc *tls.Conn) {
-				tc.SetDeadline(time.Now().Add(10 * time.Second))
+				defer inflight.Done()
+				tc.SetDeadline(time.Now().Add(handshakeDeadline))
 				if err := tc.Handshake(); err != nil {
 					tc.Close()
 					return
 				}
-				tc.SetDeadline(time.Now().Add(30 * time.Second))
+				tc.SetDeadline(time.Now().Add(3 * serveDeadline))
 				linkUp <- tc
 			}(c.(*tls.Conn))
 		}
@@ -773,10 +827,18 @@ func runDial(in *input, w *world, h *honest) (o obs) {
 		stalePhase = false
 		mu.Unlock()
 		if w.nonces["stale"] == nil {
-			return obs{Discard: "no stale nonce"}
+			w.nonces["stale"] = network.VerifC08MkNonce(w.suite)
 		}
 	}
 	_, serr := h.r.Send(target, &C08Msg{Tag: -3})
+	// Send has returned: the dialler is done with every attempt, so every
+	// server-side handshake ends (completed, or failed on the dialler's alert/close)
+	waited := make(chan bool)
+	go func() { inflight.Wait(); close(waited) }()
+	select {
+	case <-waited:
+	case <-time.After(handshakeDeadline + 5*time.Second):
+	}
 	mu.Lock()
 	o.Attempts = len(nonces)
 	o.NonceReuse = len(nonces) > 1
@@ -790,19 +852,30 @@ func runDial(in *input, w *world, h *honest) (o obs) {
 	if be != nil {
 		return obs{Discard: "cannot build chain: " + be.Error()}
 	}
-	o.Handshake = serr == nil
-	if serr != nil {
-		o.Reason = clip(serr.Error())
-		o.Dispatched = h.count()
-		o.Stamped = w.stamped(h)
-		return o
-	}
-	o.Reason = "link up"
 	var tc *tls.Conn
 	select {
 	case tc = <-linkUp:
-	case <-time.After(10 * time.Second):
-		return obs{Discard: "dialler reports success but the server saw no handshake"}
+	default:
+	}
+	// the dialler accepted our certificate iff a handshake completed on our side
+	o.Handshake = tc != nil
+	switch {
+	case tc == nil && serr == nil:
+		o.Reason = "Send reported success although no TLS handshake completed"
+	case tc == nil:
+		o.Reason = clip(serr.Error())
+	case serr != nil:
+		o.Reason = "the dialler completed the handshake, then failed: " + clip(serr.Error())
+	default:
+		o.Reason = "link up"
+	}
+	if tc == nil || serr != nil {
+		if tc != nil {
+			tc.Close()
+		}
+		o.Dispatched = h.count()
+		o.Stamped = w.stamped(h)
+		return o
 	}
 	defer tc.Close()
 	oc := network.VerifC08WrapConn(tc, w.suite)
@@ -815,7 +888,9 @@ func runDial(in *input, w *world, h *honest) (o obs) {
 			oc.Send(w.si(in.Reident-1, network.NewTLSAddress("127.0.0.1:1"), false))
 		}
 	}
-	h.waitDispatched(in.Msgs, make(chan bool), 15*time.Second)
+	if h.waitDispatched(in.Msgs, make(chan bool), serveDeadline) == "hang" {
+		o.Crash = "hang: the dialler did not dispatch the replies sent over the link it opened within " + serveDeadline.String()
+	}
 	o.Dispatched = h.count()
 	o.Stamped = w.stamped(h)
 	return o
